@@ -122,7 +122,8 @@ def stat_cases(draw, tier):
         nc = draw(st.integers(0, ns + 2))
     c = {"type": t, "n": draw(st.integers(2, 3)), "num_samples": ns, "num_chains": nc, "burn_in": draw(st.integers(0, 3)), "steps": draw(st.integers(0, 3)),
          "obs": draw(st.lists(st.sampled_from(OBS), min_size=1, max_size=3, unique=True)), "system": draw(st.booleans()),
-         "seed": draw(st.integers(0, 2 ** 31 - 1)), "mode": mode}
+         "seed": draw(st.integers(0, 2 ** 31 - 1)), "mode": mode,
+         "defaults": draw(st.integers(0, 19)) == 0}      # omit burn_in / steps: documented defaults 1000 / 1
     if mode == "user":
         c["user_chains"] = draw(gen.index_list(c["n"], 1, 6))
         c["overwrite"] = draw(st.booleans())
@@ -159,6 +160,9 @@ def check_stats(c):
     ns, nc_req = c["num_samples"], c["num_chains"]
     user = None
     kw = dict(num_samples=ns, num_chains=nc_req, burn_in=c["burn_in"], steps=c["steps"])
+    if c.get("defaults"):
+        kw = dict(num_samples=ns, num_chains=nc_req)
+        c = dict(c, burn_in=1000, steps=1)
     if "user_chains" in c:
         user = R.rows_from_indices(c["user_chains"], n)
         if c.get("user_dtype") == "float32":
